@@ -120,16 +120,20 @@ int main(int argc, char **argv) {
         for (std::string s : {"cg","fgmres","idrs","richardson"}) if (!left) { Cfg c; c.solver=s; c.maxiter=k; c.left=false; cfgs.push_back(c); if (s=="idrs") { c.s=1; cfgs.push_back(c); c.s=2; c.flag=true; cfgs.push_back(c); } if (s=="fgmres") { c.M=1; cfgs.push_back(c); } }
         for (std::string s : {"bicgstab","gmres","lgmres","bicgstabl"}) { Cfg c; c.solver=s; c.maxiter=k; c.left=left; cfgs.push_back(c); if (s=="gmres"||s=="lgmres") { c.M=1; cfgs.push_back(c); } if (s=="bicgstabl") { c.L=1; cfgs.push_back(c); c.L=2; c.flag=true; cfgs.push_back(c); } }
     }
+    if (!T) { std::vector<Cfg> keep; for (auto &c : cfgs) if (!(c.solver=="bicgstabl" && (c.L!=1 || c.maxiter>1))) keep.push_back(c); cfgs=keep; }
+    {
+    }
     Pattern p2=hx::dense_pattern(2,2), b3=hx::band_pattern(3,1), d3=hx::dense_pattern(3,3);
     auto heavy=[&](const Cfg &c) { return c.solver=="idrs" || c.solver=="bicgstabl" || c.solver=="lgmres"; };
+    auto bl=[&](const Cfg &c) { return c.solver=="bicgstabl"; }; auto idk2=[&](const Cfg &c) { return c.solver=="idrs" && c.maxiter>=2 && c.s!=1; };
     for (auto &c : cfgs) {
-        if (c.maxiter<=2) mmode_case(c,p2,0,16);
-        if (c.maxiter<=(heavy(c)?1:2)) mmode_case(c,b3,0,16);
-        if (c.maxiter==1) mmode_case(c,p2,1,16);
-        if (c.maxiter==1 && !heavy(c)) mmode_case(c,b3,1,16);
+        if (c.maxiter<=2 && !idk2(c)) mmode_case(c,p2,0,12);
+        if (c.maxiter<=((heavy(c)||c.left||c.M==1)?1:2) && (T || !bl(c))) mmode_case(c,b3,0,12);
+        if (c.maxiter==1 && (T || !bl(c))) mmode_case(c,p2,1,12);
+        if (c.maxiter==1 && !heavy(c)) mmode_case(c,b3,1,12);
         if (T) { if (c.maxiter<=3) mmode_case(c,b3,0,48); if (c.maxiter<=2) { mmode_case(c,d3,0,48); mmode_case(c,b3,1,48); } if (c.maxiter<=2 && !heavy(c)) mmode_case(c,d3,1,48); }
     }
-    for (auto &c : cfgs) if (c.maxiter<=2 && (T || !heavy(c) || c.maxiter==1)) stop_case(c,p2);
-    for (auto &c : cfgs) if (c.maxiter<=(T?3:2)) { Pattern g=hx::grid_pattern(3,2); amg_case<SA,SP>(c,g,rng,"sa-spai0"); if (T || c.maxiter==1) { amg_case<AG,GS>(c,hx::grid_pattern(3,3),rng,"agg-gs"); amg_case<SA,DJ>(c,hx::band_pattern(7,1),rng,"sa-jacobi"); } }
+    for (auto &c : cfgs) if ((T && c.maxiter<=2) || (c.maxiter==1 && c.solver!="idrs")) stop_case(c,p2);
+    for (auto &c : cfgs) if (c.maxiter<=(T?3:2) && (T || (!bl(c) && !idk2(c)))) { Pattern g=hx::grid_pattern(3,2); if (T || c.maxiter==1 || !c.left) amg_case<SA,SP>(c,g,rng,"sa-spai0"); if (T || (c.maxiter==1 && c.M==2 && !c.left)) { amg_case<AG,GS>(c,hx::grid_pattern(3,3),rng,"agg-gs"); amg_case<SA,DJ>(c,hx::band_pattern(7,1),rng,"sa-jacobi"); } }
     return hx::finish();
 }
